@@ -210,3 +210,27 @@ func OracleEntries(req []byte) []interface{} {
 	}
 	return out
 }
+
+// oracleForCompact: the verdict a correct implementation may need for VerifyJWS(compact, jwk).
+func oracleForCompact(jwk M, compact string) []interface{} {
+	parts := strings.Split(compact, ".")
+	if len(parts) != 3 {
+		return nil
+	}
+	hb, e1 := opb.B64.DecodeString(parts[0])
+	pb, e2 := opb.B64.DecodeString(parts[1])
+	sb, e3 := opb.B64.DecodeString(parts[2])
+	if e1 != nil || e2 != nil || e3 != nil {
+		return nil
+	}
+	var hdr map[string]interface{}
+	if json.Unmarshal(hb, &hdr) != nil || hdr == nil {
+		return nil
+	}
+	hb2, err := json.Marshal(hdr)
+	if err != nil {
+		return nil
+	}
+	input := opb.SigningInput(hb2, pb)
+	return []interface{}{M{"jwk": jwk, "in": proto.Hex(input), "sig": proto.Hex(sb), "ok": opb.VerifyJWK(jwk, input, sb)}}
+}
